@@ -199,6 +199,10 @@ func (fx *fctx) evalMulti(st *State, x ast.Expr, n int) []*Value {
 				zero := e.zeroValue(m.Elem())
 				val := e.mergeValues([]*Term{okT, ts.Not(okT)}, []*Value{v, zero})
 				val.T = m.Elem()
+				// values of immutable package-level maps satisfy their declared `mapvals` facts when present
+				if g := fx.mapValsFact(st, y.X, v); g != nil {
+					st.assume(ts.Implies(okT, g))
+				}
 				// values stored in maps satisfy their type invariants
 				s1 := st.clone()
 				s1.assume(okT)
@@ -604,7 +608,12 @@ func (fx *fctx) execLoop(st *State, s ast.Stmt, cond func(*State) *Term, body fu
 			fx.assert(st, tag+"/inv-init", fmt.Sprint(cl.Ord), g, s, propsOr(cl.Props, fx.props), "invariant holds on entry: "+cl.Text)
 		}
 	}
-	fx.boundaryCheck(st, s, tag+"/head-init")
+	// objects already being modified when the loop is reached stay "dirty" through the loop (their invariant is
+	// re-established at the boundary that follows); objects the body dirties are settled at the back edge
+	preDirty := map[int]bool{}
+	for _, d := range st.dirty {
+		preDirty[d.id] = true
+	}
 	// 2. havoc
 	assigned := fx.assignedIn(nodes)
 	keys, top, allocs := fx.writesIn(nodes)
@@ -720,7 +729,20 @@ func (fx *fctx) execLoop(st *State, s ast.Stmt, cond func(*State) *Term, body fu
 					fx.assert(back, tag+"/decreases", "", ts.And(ts.Ge(dec0, ts.Int(0)), ts.Lt(dec1, dec0)), s, propsOr(lc.Decreases.Props, fx.props), "variant decreases and is bounded: "+lc.Decreases.Text)
 				}
 			}
+			var keepD, chkD []*Term
+			var keepT, chkT []*typeInvInfo
+			for i, d := range back.dirty {
+				if preDirty[d.id] {
+					keepD = append(keepD, d)
+					keepT = append(keepT, back.dirtyTI[i])
+				} else {
+					chkD = append(chkD, d)
+					chkT = append(chkT, back.dirtyTI[i])
+				}
+			}
+			back.dirty, back.dirtyTI = chkD, chkT
 			fx.boundaryCheck(back, s, tag+"/head-pres")
+			back.dirty, back.dirtyTI = keepD, keepT
 		}
 		fx.caseLabel = savedLabel
 	}
@@ -817,6 +839,9 @@ func (fx *fctx) execRange(st *State, s *ast.RangeStmt) *State {
 			if valVar != nil {
 				v := e.loadCell(b, "", ts.Add(sv.Sl.Ptr, i), u.Elem())
 				fx.onRead(b, v, s)
+				if !fx.spec && e.nonNilElem(u.Elem()) && v.Tm != nil && !fx.isMade(sv.Sl.Ptr) {
+					b.assume(ts.Ne(v.Tm, ts.Int(0)))
+				}
 				fx.bindVar(b, valVar, v)
 			}
 			return fx.execBlock(b, s.Body.List)
@@ -1000,22 +1025,53 @@ func (fx *fctx) settleDirty(states []*State, n ast.Node) {
 	if len(live) < 2 {
 		return
 	}
-	same := true
-	for _, s := range live[1:] {
-		if len(s.dirty) != len(live[0].dirty) {
-			same = false
-			break
+	// objects dirty on every path stay dirty; those dirty on some paths only are settled now
+	count := map[int]int{}
+	for _, s := range live {
+		for _, d := range s.dirty {
+			count[d.id]++
 		}
-		for i := range s.dirty {
-			if s.dirty[i] != live[0].dirty[i] {
-				same = false
-			}
-		}
-	}
-	if same {
-		return
 	}
 	for _, s := range live {
+		var keepD []*Term
+		var keepT []*typeInvInfo
+		var chkD []*Term
+		var chkT []*typeInvInfo
+		for i, d := range s.dirty {
+			if count[d.id] == len(live) {
+				keepD = append(keepD, d)
+				keepT = append(keepT, s.dirtyTI[i])
+			} else {
+				chkD = append(chkD, d)
+				chkT = append(chkT, s.dirtyTI[i])
+			}
+		}
+		if len(chkD) == 0 {
+			continue
+		}
+		s.dirty, s.dirtyTI = chkD, chkT
 		fx.boundaryCheck(s, n, "join")
+		s.dirty = append(s.dirty, keepD...)
+		s.dirtyTI = append(s.dirtyTI, keepT...)
 	}
+}
+
+
+// mapValsFact: the declared fact about values of the immutable package-level map denoted by x, instantiated for v.
+func (fx *fctx) mapValsFact(st *State, x ast.Expr, v *Value) *Term {
+	e := fx.e
+	id, ok := x.(*ast.Ident)
+	if !ok {
+		return nil
+	}
+	gv, ok := e.P.Info.Uses[id].(*types.Var)
+	if !ok || !fx.isGlobal(gv) {
+		return nil
+	}
+	for _, mv := range e.P.CF.MapVals {
+		if mv.Clause.Kind == "mapvals:"+gv.Name() && mv.Clause.Fn != nil {
+			return fx.evalClause(st, nil, mv.Clause, map[string]*Value{mv.Var: v})
+		}
+	}
+	return nil
 }
